@@ -164,6 +164,8 @@ type vcgen struct {
 	entryEnv  *cenv
 	inCallee  bool
 	loopInvs  map[*ssa.BasicBlock][]Clause
+	inlineStack []*ssa.Function // helpers being translated in place (inline.go)
+	entryPC     string          // path condition at the entry of an inlined body ("" = true)
 }
 
 func (g *vcgen) emit(s string) { g.u.Items = append(g.u.Items, s) }
